@@ -255,6 +255,7 @@ WITNESSES = [
     # (signature, format, reference, old, new_data)
     ("inc-wrap-valueless-define", "inc",
      "#define foo\n#define bar BAR\n#define baz BAZ\n", "", {"foo": "x"}),
+    ("inc-serialize-blank-line-junk", "inc", "#define A a\n#define B b\n", "", {"B": "x"}),
 ]
 
 
@@ -266,6 +267,14 @@ def run_witnesses(chk, only=None):
         ref = walk_bytes(name, ref_t.encode("utf-8"))
         old = walk_bytes(name, old_t.encode("utf-8"))
         _, text = serialize_impl(name, ref, old, new_data)
+        if sig == "inc-serialize-blank-line-junk" and text is not None:
+            junk = [e.all for e in walk_bytes(name, text.encode("utf-8")) if ckind(e) == K_JUNK]
+            if junk:
+                chk.fail(sig, {"fmt": fmt, "ref": ref_t, "old": old_t, "new_data": new_data},
+                         {"output": text, "junk": junk,
+                          "why": "the placeholder of the untranslated first define is pruned, its "
+                                 "newline stays: the output starts with a blank line, which "
+                                 "DefinesParser (no `#filter emptyLines`) re-parses as Junk"})
         if sig == "inc-wrap-valueless-define" and text is not None and "BAR" in text:
             chk.fail(sig, {"fmt": fmt, "ref": ref_t, "old": old_t, "new_data": new_data},
                      {"output": text,
